@@ -182,16 +182,25 @@ def encoding_chain(ctx: Ctx) -> None:
     require(isinstance(item.optional_vars, ast.Name), f"{OWDE}: with-item has no simple 'as' name")
     fv = item.optional_vars.id
     rets = [r for r in body_walk(f.node) if isinstance(r, ast.Return)]
-    n_ok = 0
-    for r in rets:
-        v = r.value
-        good = (isinstance(v, ast.Tuple) and len(v.elts) == 2 and isinstance(v.elts[1], ast.Name) and v.elts[1].id == ev_
-                and isinstance(v.elts[0], ast.Call) and callee_name(ctx, f, v.elts[0]) == "simfile:load"
-                and v.elts[0].args and isinstance(v.elts[0].args[0], ast.Name) and v.elts[0].args[0].id == fv and in_body(w, r))
-        n_ok += good
-        ctx.expect("R-FWD", f, "returns (load(<the opened file>), <the encoding it was opened with>)", good, src(v) if v is not None else "",
-                   f"return value is {src(v) if v is not None else 'None'}", node=r)
-    ctx.floor("result returns", len(rets), 1)
+    # what is returned, on the path effects: (load(<the file opened with encoding=E>), E) for the E of this iteration
+    from .tables import closed as _closed0, sums_of as _tsums0
+    n_ret = 0
+    for s_ in _tsums0(ctx, f):
+        if s_.end != "return":
+            continue
+        n_ret += 1
+        k_, v_ = s_.terminal()
+        withs = {e.value.id: e.target for e in s_.effects if e.kind == "with" and isinstance(e.value, ast.Name)}
+        v_c = _closed0(s_, v_, keep=list(withs) + [ev_]) if v_ is not None else None
+        good = False
+        if isinstance(v_c, ast.Tuple) and len(v_c.elts) == 2 and isinstance(v_c.elts[1], ast.Name) and v_c.elts[1].id == ev_ and isinstance(v_c.elts[0], ast.Call) \
+                and callee_name(ctx, f, v_c.elts[0]) == "simfile:load" and v_c.elts[0].args and isinstance(v_c.elts[0].args[0], ast.Name) and v_c.elts[0].args[0].id in withs:
+            opened = withs[v_c.elts[0].args[0].id]
+            kw_o = {k.arg: ast.unparse(k.value) for k in opened.keywords} if isinstance(opened, ast.Call) else {}
+            good = kw_o.get("encoding") == ev_
+        ctx.expect("R-FWD", f, "returns (load(<the opened file>), <the encoding it was opened with>)", good, ast.unparse(v_c) if v_c is not None else "",
+                   f"return value is {ast.unparse(v_c) if v_c is not None else 'None'}", node=f.node)
+    ctx.floor("result returns", n_ret, 1)
     # error discipline
     tries = [t for t in body_walk(f.node) if isinstance(t, ast.Try)]
     t = one(tries, f"try statement in {OWDE}")
@@ -249,28 +258,56 @@ def encoding_chain(ctx: Ctx) -> None:
             return "explicit" if has_enc(facts(ctx, fo, at)) is True else "explicit-unguarded"
         return "other:" + src(e, 60)
 
-    sites = [c for c in calls(fo) if callee_name(ctx, fo, c) == OWDE]
-    ctx.floor("open_with_detected_encoding call sites in open()", len(sites), 1)
+    # per path of open(): which encodings are tried - the caller's explicit encoding alone when `encoding=` was given, else the default list.
+    # The key test is `'encoding' in kwargs`, or `kwargs.pop('encoding', <sentinel>) is <sentinel>` (the key is absent exactly then).
+    from .tables import closed as _closed1, sums_of as _tsums1
+    kwn = fo.has_kwargs()
     covered = set()
-    for c2 in sites:
+    n_paths = 0
+    for s_ in _tsums1(ctx, fo):
+        if s_.end == "raise":
+            continue
+        n_paths += 1
+        asg = dict(s_.plain_assign())
+        present = asg.get(f"'encoding' in {kwn}")
+        pops = {}
+        for e in s_.effects:
+            if e.kind == "bind" and isinstance(e.target, ast.Name) and isinstance(e.value, ast.Call) and ast.unparse(e.value.func) == f"{kwn}.pop" and e.value.args and try_ev(ctx, fo, e.value.args[0]) == "encoding":
+                d = e.value.args[1] if len(e.value.args) > 1 else None
+                pops[e.target.id] = ast.unparse(d) if d is not None else None
+        for x, d in pops.items():
+            if d is not None:
+                for kk in (f"{d} is {x}", f"{x} is {d}"):
+                    if kk in asg:
+                        present = not asg[kk]
+        call = None
+        for i_, e in enumerate(s_.effects):
+            for n_ in (ast.walk(e.value) if isinstance(e.value, ast.AST) else []):
+                if isinstance(n_, ast.Call) and callee_name(ctx, fo, n_) == OWDE:
+                    call = (i_, n_)
+        if call is None:
+            ctx.bad("R-FWD", fo, "open() loads through open_with_detected_encoding", f"a path of open() under {asg} does not call it", node=fo.node)
+            continue
+        i_, c2 = call
         kw2 = {k.arg: k.value for k in c2.keywords}
         te = kw2.get("try_encodings", c2.args[1] if len(c2.args) > 1 else None)
-        kind = classify(te, c2)
-        he = has_enc(facts(ctx, fo, c2))
-        if kind == "name:default,explicit":
-            good = True
-            covered |= {"default", "explicit"}
-        elif kind == "explicit":
-            good = he is True
+        te_c = _closed1(s_, te, i_, keep=list(pops)) if te is not None else None
+        te_t = ast.unparse(te_c) if te_c is not None else "<default of open_with_detected_encoding>"
+        explicit_forms = {f"[{kwn}.pop('encoding')]"} | {f"[{x}]" for x in pops}
+        default_forms = {repr(list(enc_const)), "ENCODINGS", "<default of open_with_detected_encoding>"}
+        if present is True:
+            good = te_t in explicit_forms
             covered.add("explicit")
-        elif kind == "default":
-            good = he is False or len(sites) == 1 and False
+        elif present is False:
+            good = te_t in default_forms
             covered.add("default")
         else:
             good = False
-        ctx.expect("R-FWD", fo, f"open(): tried encodings at {src(c2.func, 30)}() are ENCODINGS, or [the explicit encoding] when one is given", good, kind,
-                   f"try_encodings is {kind} under {unparse_facts(facts(ctx, fo, c2))}: an explicit encoding= must become the single tried encoding, otherwise the default list applies", node=c2)
-        ctx.expect("R-FWD", fo, "open() opens the caller's filename", bool(c2.args) and isinstance(c2.args[0], ast.Name) and c2.args[0].id == "filename" and lo.only_param("filename"), "", "", node=c2)
+        ctx.expect("R-FWD", fo, "open(): the tried encodings are [the explicit encoding] when encoding= is given, else ENCODINGS", good, te_t,
+                   f"under {asg} try_encodings is {te_t}: an explicit encoding= must become the single tried encoding (and be removed from the keyword arguments), otherwise the default list applies", node=c2)
+        fn_arg = c2.args[0] if c2.args else kw2.get("filename")
+        ctx.expect("R-FWD", fo, "open() opens the caller's filename", fn_arg is not None and ast.unparse(fn_arg) == "filename" and lo.only_param("filename"), "", "", node=c2)
+    ctx.floor("paths of open()", n_paths, 2)
     ctx.expect("R-FWD", fo, "open() handles both the default list and an explicit encoding", covered == {"default", "explicit"}, str(sorted(covered)), f"covered cases: {sorted(covered)}", node=fo.node)
     from .tables import closed as _closed, sums_of as _tsums
     outs = set()
